@@ -13,6 +13,17 @@
 // that source paths are known); the model is fed these single-rule annotation sets and must
 // reproduce Client.Lint / Client.Breaking under many generated configurations line by line.
 //
+// Section C also runs breaking image pairs in which the import-only files share package and
+// directory with the only target (genBreakingShared, built the three ways of section F).
+//
+// Section D (yaml.go): buf.yaml shapes.  Section E (place.go): comment placement.
+//
+// Section F (imports.go): small workspaces in which import-only files SHARE packages and
+// directories with the target files and carry violations of every kind of rule, built four ways
+// (all targets / LocalModuleWithTargetPaths / ImageWithOnlyPaths / non-targeted dependency
+// module), stratified over cross-file rule x disagreement pattern x build mode; plus ignore and
+// ignore_only paths that cover only some participants of a cross-file violation.
+//
 // The oracle (implementation only) checks the algebraic laws between real runs: union over
 // single-rule runs, monotonicity and scoping of every suppression, category nesting,
 // deprecated = replacements, unknown id => error, imports never reported.
@@ -363,6 +374,8 @@ type image struct {
 	// single-rule results (as the final FileAnnotation form) per rule id
 	proto  map[string]string
 	single map[string]map[string][]fa
+	// onlyVers != nil: measure in these versions only
+	onlyVers []*version
 }
 
 func buildImage(pathToData map[string][]byte, importOnly map[string]bool) bufimage.Image {
@@ -471,6 +484,9 @@ func (im *image) measureWith(lint bool, extra map[string]any, batch bool, skip m
 	filesField, idx := encFiles(fds)
 	afilesField, aidx := encFiles(afds)
 	for _, v := range versions {
+		if im.onlyVers != nil && !slices.Contains(im.onlyVers, v) {
+			continue
+		}
 		var opts option.Options = option.EmptyOptions
 		ids := v.breakingLive
 		if lint {
@@ -699,8 +715,12 @@ func fail(class, what string, c *cfgSpec, extra map[string]any) {
 	for k, v := range extra {
 		in[k] = v
 	}
-	run.Fail(hx.OracleFailure{Class: class, What: what, Input: in,
-		Replay: fmt.Sprintf("build/c06 --seed %d --tier %s --out /tmp/c06-replay", run.Seed, run.Tier)})
+	replay := fmt.Sprintf("build/c06 --seed %d --tier %s --out /tmp/c06-replay", run.Seed, run.Tier)
+	if h, ok := in["replay"].(string); ok {
+		replay = h
+		delete(in, "replay")
+	}
+	run.Fail(hx.OracleFailure{Class: class, What: what, Input: in, Replay: replay})
 }
 
 // expandIDs asks the implementation what a single id selects (its own rule, its category's
@@ -986,6 +1006,8 @@ func exactnessOracle(c *cfgSpec, im *image, got []fa, ids []string, strict bool,
 			}
 		}
 		switch {
+		case reported && why == "import" && c.lint:
+			// lint has no client-side import filter: already filed under C06-import-reported by (2)
 		case reported && why != "":
 			fail(cls("C06-suppression-not-applied"), "annotation survives although it is in the scope of "+why, c, with(map[string]any{"annotation": k}))
 		case reported && strict && commentScope:
@@ -1123,8 +1145,9 @@ func normalize(p string) string {
 }
 
 func sectionCheck(r *hx.Rand, lint bool) {
-	nImages := run.N(6, 20)
-	nCfg := run.N(260, 500)
+	// thorough sizes: every check line carries its image (~24 KB): 10 x 260 keeps in.txt per seed < 200 MB
+	nImages := run.N(6, 10)
+	nCfg := 260
 	if !lint {
 		nImages = run.N(4, 12)
 		nCfg = run.N(200, 400)
@@ -1133,10 +1156,33 @@ func sectionCheck(r *hx.Rand, lint bool) {
 	if lint {
 		sec = "lint"
 	}
-	for i := 0; i < nImages; i++ {
+	// breaking only: extra images in which the import-only files SHARE the package and the
+	// directory of the target, built the three ways of section F (module with target paths,
+	// ImageWithOnlyPaths, non-targeted dependency module), same or different flags on the two sides
+	nShared := 0
+	if !lint {
+		nShared = run.N(3, 6)
+	}
+	for i := 0; i < nImages+nShared; i++ {
 		ri := r.Fork(uint64(1000 + i))
 		im := &image{importPaths: map[string]bool{}}
-		if lint {
+		if i >= nImages {
+			src := genBreakingShared(ri)
+			j := i - nImages
+			mode := []int{modeModulePaths, modeImagePaths, modeDepModule}[(j+j/3)%3]
+			newMode, oldMode := mode, mode
+			switch j % 3 {
+			case 1:
+				oldMode = modeFull // the against image has no imports
+			case 2:
+				newMode = modeFull
+			}
+			targets := []string{"a/v1/a.proto"}
+			im.img = must(buildTargeted(src.new, targets, newMode, j))
+			im.against = must(buildTargeted(src.old, targets, oldMode, j))
+			nCfg = run.N(60, 120)
+			run.Count("breaking:shared-package-imports:" + modeNames[newMode] + "/" + modeNames[oldMode])
+		} else if lint {
 			pool := versions[2].lintLive
 			src := genLintSources(ri, pool, []int{0, 3, 5, 7, 9, 6}[i%6])
 			im.img = buildImage(src.pathToData, src.importOnly)
@@ -1217,7 +1263,7 @@ func main() {
 	defer run.Finish()
 	setup()
 	r := hx.NewRand(run.Seed)
-	// C06_SECTIONS (development aid): comma-separated subset of sel,lint,breaking,place,yaml
+	// C06_SECTIONS (development aid): comma-separated subset of sel,imports,lint,breaking,place,yaml
 	on := func(name string) bool {
 		s := os.Getenv("C06_SECTIONS")
 		return s == "" || slices.Contains(strings.Split(s, ","), name)
@@ -1225,6 +1271,9 @@ func main() {
 	nestingOracle()
 	if on("sel") {
 		sectionSelection(r.Fork(1))
+	}
+	if on("imports") {
+		sectionImports(r.Fork(6))
 	}
 	if on("lint") {
 		sectionCheck(r.Fork(2), true)
